@@ -69,6 +69,7 @@ type costs struct {
 	CSuicide, CSuicideFee, SuicideRefund                         uint64
 	CCall0, CCallV, CCallCode0, CCallCodeV, CDelegate, CStatic   uint64
 	Stipend, CMark, CMarkCreate, CPop, CCreatePre, CDeposit      uint64
+	CFee, CNewAcct, CPc1, CPc2, CPc3, CPc4                       uint64
 }
 
 func (c costs) module() string {
@@ -99,6 +100,13 @@ func (c costs) module() string {
 	w("CPop", c.CPop)
 	w("CCreatePre", c.CCreatePre)
 	w("CDeposit", c.CDeposit)
+	w("CFee", c.CFee)
+	w("CNewAcct", c.CNewAcct)
+	w("CPc1", c.CPc1)
+	w("CPc2", c.CPc2)
+	w("CPc3", c.CPc3)
+	w("CPc4", c.CPc4)
+	b.WriteString("CPc(i) == CASE i = 1 -> CPc1 [] i = 2 -> CPc2 [] i = 3 -> CPc3 [] i = 4 -> CPc4\n")
 	b.WriteString("CCallPre(kind, v) ==\n")
 	b.WriteString("  CASE kind = \"call\" -> (IF v > 0 THEN CCallV ELSE CCall0)\n")
 	b.WriteString("    [] kind = \"callcode\" -> (IF v > 0 THEN CCallCodeV ELSE CCallCode0)\n")
@@ -267,6 +275,55 @@ func calibrate(nm names) (costs, error) {
 			return c, fmt.Errorf("deposit: used %d < %d", used1, used0+c.CRet)
 		}
 		c.CDeposit = used1 - used0 - c.CRet
+	}
+	// the transfer fee inside the cost of the value-moving ops: the same figure must come
+	// out of the three ops that carry it (SELFDESTRUCT with / without a balance, TRANSFERTOKEN
+	// of the native coin / of a token, CALL / CALLCODE with and without value)
+	{
+		c.CFee = c.CSuicideFee
+		if d := c.CXfer - c.CTokXfer; d != c.CFee {
+			return c, fmt.Errorf("transfer fee: TRANSFERTOKEN carries %d, SELFDESTRUCT %d", d, c.CFee)
+		}
+		if d := (c.CCallV - c.CCall0) - (c.CCallCodeV - c.CCallCode0); d != c.CFee {
+			return c, fmt.Errorf("transfer fee: CALL carries %d, SELFDESTRUCT %d", d, c.CFee)
+		}
+		if c.CFee == 0 {
+			return c, fmt.Errorf("no transfer fee observed")
+		}
+	}
+	// call targets that are not in the pre-state: what a value call to an empty account
+	// costs on top, what the native code of each precompiled contract uses (no input)
+	{
+		root, tr, o, _, err := calRun(nm, []aop{{ID: 1, Op: "call", Kind: "call", V: 1, Req: 0, Tg: tgFresh}}, "call", 1)
+		if err != nil || o.err != nil {
+			return c, fmt.Errorf("calibration of a call to a fresh address: %v %v", err, o.err)
+		}
+		n := root.ops[0]
+		pre, _ := tr.sum(1, n.start, n.mid)
+		if pre < c.CCallV {
+			return c, fmt.Errorf("value call to a fresh address costs %d < %d", pre, c.CCallV)
+		}
+		c.CNewAcct = pre - c.CCallV
+		for tg, to := range map[int]*uint64{1: &c.CPc1, 2: &c.CPc2, 3: &c.CPc3, 4: &c.CPc4} {
+			_, _, o, _, err := calRun(nm, []aop{{ID: 1, Op: "call", Kind: "call", Req: 1000000, Tg: tg}}, "call", 1)
+			if err != nil || o.err != nil {
+				return c, fmt.Errorf("calibration of precompiled contract %d: %v %v", tg, err, o.err)
+			}
+			used := calGas - o.left
+			if fixed := c.CFrame + c.CCall0 + c.CMark; used < fixed {
+				return c, fmt.Errorf("precompiled contract %d: used %d < %d", tg, used, fixed)
+			} else {
+				*to = used - fixed
+			}
+			// the same figure through STATICCALL (no account is created on that path)
+			_, _, o, _, err = calRun(nm, []aop{{ID: 1, Op: "call", Kind: "static", Req: 1000000, Tg: tg}}, "call", 1)
+			if err != nil || o.err != nil {
+				return c, fmt.Errorf("calibration of precompiled contract %d (static): %v %v", tg, err, o.err)
+			}
+			if got := calGas - o.left - (c.CFrame + c.CStatic + c.CMark); got != *to {
+				return c, fmt.Errorf("precompiled contract %d uses %d gas through CALL and %d through STATICCALL", tg, *to, got)
+			}
+		}
 	}
 	return c, nil
 }
